@@ -186,7 +186,7 @@ static std::string buildQuery(const std::string &api, long long qid, long long e
     else if (api == "aaaa96") n = rfc3596BuildAAAAQuery(host, buf, sz, qid, &query);
     else if (api.compare(0, 7, "host96:") == 0) {
         long long qt;
-        if (!num(api.substr(7), qt) || qt < 0 || qt > 65535) { delete[] buf; delete[] host; return "bad-op"; }
+        if (!num(api.substr(7), qt) || qt < 0 || qt > 1000000) { delete[] buf; delete[] host; return "bad-op"; }
         n = rfc3596BuildHostQuery(host, buf, sz, qid, &query, qt);
     } else if (isAddr4) {
         struct in_addr a;
